@@ -103,6 +103,9 @@ def ensure_fresh():
         known[key] = d
         if had:
             for fpdir in glob.glob(os.path.join(BUILD, '*', '*', '.fingerprint')) + glob.glob(os.path.join(BUILD, '*', '*', '*', '.fingerprint')):
+                top = os.path.relpath(fpdir, BUILD).split(os.sep)[0]
+                if top.startswith('daemon') and top != _daemon_target():
+                    continue        # the daemon target directory of ANOTHER repository path (it may be mid-build)
                 for e in os.listdir(fpdir):
                     if e.startswith(('rustybgp', 'hx-', 'hx_')):
                         shutil.rmtree(os.path.join(fpdir, e), ignore_errors=True)
